@@ -93,6 +93,43 @@ namespace verif
         return s + "] alloc=" + cptr(R, l, l.alloc_chunk_) + " dealloc=" + cptr(R, l, l.dealloc_chunk_);
     }
 
+
+    // addresses of the free nodes, in list order (C16 probes)
+    inline std::vector<char*> free_nodes(fmd::free_memory_list& l)
+    {
+        std::vector<char*> v;
+        for (char* cur = l.first_; cur && v.size() < 100000; cur = fmd::list_get_next(cur))
+            v.push_back(cur);
+        return v;
+    }
+    inline std::vector<char*> free_nodes(fmd::ordered_free_memory_list& l)
+    {
+        std::vector<char*> v;
+        char*              prev = l.begin_node();
+        char*              cur = fmd::xor_list_get_other(prev, nullptr);
+        while (cur != l.end_node() && cur && v.size() < 100000)
+        {
+            v.push_back(cur);
+            fmd::xor_list_iter_next(cur, prev);
+        }
+        return v;
+    }
+    inline std::vector<char*> free_nodes(fmd::small_free_memory_list& l)
+    {
+        std::vector<char*> v;
+        for (auto c = l.base_.next; c != &l.base_ && v.size() < 100000; c = c->next)
+        {
+            auto     mem = reinterpret_cast<unsigned char*>(c) + fmd::chunk_memory_offset;
+            unsigned idx = c->first_free;
+            for (unsigned steps = 0; idx != c->no_nodes && steps <= 256; ++steps)
+            {
+                v.push_back(reinterpret_cast<char*>(mem + idx * l.node_size_));
+                idx = mem[idx * l.node_size_];
+            }
+        }
+        return v;
+    }
+
     inline std::string dump_blocks(Region& R, const fmd::memory_block_stack& s)
     {
         std::string out = "[";
